@@ -265,6 +265,18 @@ pub struct PageCache {
 }
 
 impl PageCache {
+    /// (entries, capacity) of every shard, each read under that shard's lock (verification accessor).
+    #[cfg(kahflane_turdb_verif)]
+    pub fn verif_shard_occupancy(&self) -> Vec<(usize, usize)> {
+        self.shards
+            .iter()
+            .map(|s| {
+                let g = s.read();
+                (g.index.len(), g.capacity)
+            })
+            .collect()
+    }
+
     pub fn new(total_capacity: usize) -> Result<Self> {
         Self::with_budget(total_capacity, None)
     }
@@ -340,6 +352,8 @@ impl PageCache {
             }
         }
 
+        #[cfg(kahflane_turdb_verif)]
+        crate::verif::yield_point("cache.upgrade");
         let shard = self.shard(&key);
         let mut guard = shard.write();
 
